@@ -713,6 +713,12 @@ func inflight(r *vh.Run, i int) {
 	part1 := []byte(fmt.Sprintf("part one %d;", i))
 	part2a := bytes.Repeat([]byte("a"), 100+rng.Intn(4000))
 	part2b := []byte(fmt.Sprintf(";the rest %d", i))
+	// in half of the trials nothing follows after the session has ended: the body simply ends, and the only further
+	// use of the session is its completion
+	noMore := (i/6)%2 == 1
+	if noMore {
+		part2b = nil
+	}
 	if ps := vh.Do(srv, vh.Req{Method: "PATCH", URL: loc, Body: part1}); ps.Status != 202 {
 		return
 	}
@@ -776,7 +782,9 @@ func inflight(r *vh.Run, i int) {
 		r.Count("inflight_trials_session_survived", 1)
 		return
 	}
-	_, _ = pw.Write(part2b)
+	if !noMore {
+		_, _ = pw.Write(part2b)
+	}
 	_ = pw.Close()
 	var st int
 	select {
@@ -786,10 +794,11 @@ func inflight(r *vh.Run, i int) {
 		return
 	}
 	r.Count("inflight_trials", 1)
-	r.Distinct("inflight_cells", how+"/"+kind.String())
+	r.Distinct("inflight_cells", fmt.Sprintf("%s/%s/more=%v", how, kind, !noMore))
+	wit["body_ends_without_more_data"] = noMore
 	wit["put_status"] = st
 	if st == 201 {
-		r.Violation("ended-session-completed:"+how, fmt.Sprintf("the session was ended (%s) while the body of its PUT was in flight; the rest of the body was accepted and the PUT acknowledged with 201 (%s store)", how, kind), wit)
+		r.Violation("ended-session-completed:"+how, fmt.Sprintf("the session was ended (%s) while the body of its PUT was in flight; the PUT was still acknowledged with 201 (%s store, more data after the end: %v)", how, kind, !noMore), wit)
 		return
 	}
 	if g := vh.Do(srv, vh.Req{Method: "HEAD", URL: "/v2/f/blobs/" + d}); g.Status == 200 {
